@@ -14,8 +14,8 @@ import (
 )
 
 func main() {
-	fams := map[string]func() *clustermc.Family{"C01": families.C01, "C02": families.C02, "C03": families.C03, "C05": families.C05, "C06": families.C06,
-		"C07": families.C07, "C08": families.C08, "C12": families.C12, "C14": families.C14, "C15": families.C15, "C16": families.C16}
+	fams := map[string]func() *clustermc.Family{"C01": families.C01, "C02": families.C02, "C03": families.C03, "C04": families.C04, "C05": families.C05, "C06": families.C06,
+		"C07": families.C07, "C08x": families.C08, "C08": families.C08, "C12": families.C12, "C14": families.C14, "C15": families.C15, "C16": families.C16}
 	mk := fams[os.Args[1]]
 	if mk == nil {
 		fmt.Println("unknown family")
